@@ -347,10 +347,10 @@ def run_dropped_case(si, vi, also):
 # ---------------------------------------------------------------- the switch on stores and unknown types
 def stores_and_unknown_types(kind: int, allow: bool, ep: int) -> bool:
     """
-    pre: 0 <= kind <= 3 and 0 <= ep <= 3
+    pre: 0 <= kind <= 15 and 0 <= ep <= 3
     post: _
     """
-    kind, allow, ep = pick(kind, 4), pickb(allow), pick(ep, 4)
+    kind, allow, ep = pick(kind, 16), pickb(allow), pick(ep, 4)
     with Native():
         ok = run_store_case(kind, allow, ep)
     V.reached()
@@ -369,8 +369,16 @@ def run_store_case(kind, allow, ep):
          "extensions": {"extension-definition--" + UU: {"extension_type": "new-sdo"}}},
         dict(BASES[0][1], x_foo=1),
     ]
+    unreg = docs[0]
+    # an extension entry that does not say it defines a new object type does not excuse an unregistered type
+    for entry in ({}, {"extension_type": "property-extension"}, {"extension_type": ""}, {"extension_type": "x"}, {"extension_type": None}, {"extension_type": 5},
+                  {"extension_type": ["new-sdo"]}, {"extension_type": "new-sdo-property-extension"}, {"extension_type": "NEW-SDO"}):
+        docs.append(dict(unreg, extensions={"extension-definition--" + UU: entry}))
+    docs.append(dict(unreg, extensions={"x-new-ext": {"extension_type": "new-sdo"}}))                  # not an extension-definition id
+    docs.append(dict(unreg, extensions={"extension-definition--" + UU: {"extension_type": "new-sco"}}))
+    docs.append(dict(unreg, extensions={"extension-definition--" + UU: {"extension_type": "new-sro"}}))
     doc = docs[kind]
-    new_type_ext = kind == 2          # a new-sdo/new-sco/new-sro extension legitimately introduces an unregistered type
+    new_type_ext = kind == 2 or kind >= len(docs) - 2         # a new-sdo/new-sco/new-sro extension legitimately introduces an unregistered type
     ffs = fakefs.FakeFS()
     saved = fakefs.install(F, ffs)
     try:
